@@ -238,7 +238,7 @@ class _NoLog(list):
         pass
 
 
-OPS = ('r', 'wx', 'wy', 'rw', 'rx', 'co', 'u1', 'u2', 'cx', 'csx', 'wa', 'mr', 'sy', 'va')
+OPS = ('r', 'wx', 'wy', 'rw', 'rx', 'co', 'u1', 'u2', 'cx', 'csx', 'wa', 'mr', 'sy', 'va', 'crb')
 
 
 def gen_programs(rng, nthreads=2, length=4):
@@ -369,6 +369,22 @@ def scenario(job):
                             tm.savepoint()
                             _emit(ev='Savepoint', conn=conn_names_by_conn[id(c)])
                             r['y'].value += 1
+                        tm.commit()
+                    elif op == 'crb':
+                        # a dependency declared before a savepoint survives the rollback to it (the connection has
+                        # joined the transaction before the savepoint: a real rollback, not the abort of a late joiner)
+                        r['y'].value += 1
+                        _ = r['x'].value
+                        c.readCurrent(r['x'])
+                        _emit(ev='ReadCurrent', conn=conn_names_by_conn[id(c)], oid='x')
+                        sp1 = tm.savepoint()
+                        _emit(ev='Savepoint', conn=conn_names_by_conn[id(c)])
+                        r['x'].value += 1
+                        tm.savepoint()
+                        _emit(ev='Savepoint', conn=conn_names_by_conn[id(c)])
+                        sp1.rollback()
+                        _emit(ev='Rollback', conn=conn_names_by_conn[id(c)], keep=['y'])
+                        _ = r['x'].value, r['y'].value
                         tm.commit()
                     elif op == 'rx':
                         _ = r['x'].value
